@@ -117,14 +117,24 @@ func (p *Parser) ExtractPatterns(file *ast.File, info *types.Info, wireAlias str
 				}
 
 				for i, value := range valueSpec.Values {
-					call, ok := ast.Unparen(value).(*ast.CallExpr)
-					if !ok {
-						continue
-					}
-
 					varName := ""
 					if i < len(valueSpec.Names) {
 						varName = valueSpec.Names[i].Name
+					}
+
+					call, ok := ast.Unparen(value).(*ast.CallExpr)
+					if !ok {
+						// var DefaultSet = BaseSet: a set variable that names another set
+						if isWireProviderSet(info.TypeOf(value)) {
+							if ref := p.parseSetElement(value, info, wireAlias, filePath); ref != nil {
+								patterns = append(patterns, &WireNewSet{
+									baseWirePattern: baseWirePattern{Pos: value.Pos(), File: filePath},
+									VarName:         varName,
+									Elements:        []WirePattern{ref},
+								})
+							}
+						}
+						continue
 					}
 
 					pattern, warn := p.parseCallExpr(call, info, wireAlias, filePath, varName)
@@ -183,6 +193,15 @@ func (p *Parser) ExtractPatterns(file *ast.File, info *types.Info, wireAlias str
 	}
 
 	return patterns, warnings
+}
+
+// isWireProviderSet reports whether t is wire.ProviderSet.
+func isWireProviderSet(t types.Type) bool {
+	named, ok := t.(*types.Named)
+	if !ok || named.Obj().Pkg() == nil {
+		return false
+	}
+	return named.Obj().Name() == "ProviderSet" && named.Obj().Pkg().Path() == "github.com/google/wire"
 }
 
 // parseCallExpr parses a call expression and returns a wire pattern if applicable.
